@@ -1,0 +1,14 @@
+//go:build verif
+// +build verif
+
+package ledgerstore
+
+// CrashHook, when set (verification builds only), is called at the numbered points between the
+// store commits of submitBlock; a hook that panics models the process stopping there.
+var CrashHook func(point int)
+
+func crashPoint(point int) {
+	if CrashHook != nil {
+		CrashHook(point)
+	}
+}
